@@ -126,7 +126,10 @@ def respelled_words(ctx, idx, L, dfas):
     ref = {k: RL.dfa(v) for k, v in known.items()}
     numeric = [r for r in L.priority if L.lexer_converts(r.name[2:]) in ("int", "float")]
     if not numeric:
-        raise AnalysisError("C10.h: no token rule converts its text with int()/float()")
+        # the lexer keeps the spelling of numbers (the conversion sits in a grammar action, C10.c): a number token inside an
+        # unquoted word contributes its own text, nothing is re-spelled through str(number)
+        ctx.hold("C10.h", con, rel, 0, "number tokens keep their spelling in the lexer: no word is rebuilt from a converted number", nontrivial=False)
+        return
     ignore = set(L.t_ignore or "")
     alphabet = "107eE.-+a"
     prio = [r for r in L.priority if r.name[2:] in (L.tokens or [])]
